@@ -335,7 +335,7 @@ func TestVerifC06(t *testing.T) {
 }
 
 // TestVerifC06History: nothing observable depends on earlier calls in the same
-// process: every operation after every operation history of length <= 2 (3 in
+// process: every operation after every operation history of length <= 3 (4 in
 // thorough) gives the result it gives in a fresh process state. Shares the
 // operation alphabet of C14.
 func TestVerifC06History(t *testing.T) {
@@ -428,7 +428,7 @@ func c06Child(root, seq string) string {
 }
 
 // TestVerifC06Processes: the result for an input does not depend on what the same
-// process handled before: for every ordered pair (thorough: triple) of inputs a
+// process handled before: for every ordered pair of inputs a
 // child process handles them in that order and the digest of the last one must
 // equal the digest a fresh child process computes for it alone.
 func TestVerifC06Processes(t *testing.T) {
